@@ -221,12 +221,17 @@ theorem error_acked_then_abort_identity (pre : List Stanza) (m : Stanza) (post :
   simp only [identityClient, this, and_self]
 
 /-- conversely, the plugin's text is returned only because an `error` message
-    with that body was received, and the last thing the client wrote is `ok` -/
+    with that body was received, and the last thing the client wrote is `ok`:
+    the conversation splits at an `error` message with body `t` that the client
+    reached while still listening (so not a later, unread one), and what the
+    client wrote is what it had written before that message, then `ok` -/
 theorem plugin_error_only_from_error (c : Conv) (t : Bytes) :
     ((R c).result = .error (.pluginError t) →
-      (∃ init, (R c).replies = init ++ [okS]) ∧ ∃ m ∈ c.msgs, m.type = "error" ∧ m.body = t) ∧
+      ∃ pre m post, c.msgs = pre ++ m :: post ∧ m.type = "error" ∧ m.body = t ∧
+        ∀ e₀, Listening (R ⟨pre, e₀⟩) e₀ ∧ (R c).replies = (R ⟨pre, e₀⟩).replies ++ [okS]) ∧
     ((I c).result = .error (.pluginError t) →
-      (∃ init, (I c).replies = init ++ [okS]) ∧ ∃ m ∈ c.msgs, m.type = "error" ∧ m.body = t) := by
+      ∃ pre m post, c.msgs = pre ++ m :: post ∧ m.type = "error" ∧ m.body = t ∧
+        ∀ e₀, Listening (I ⟨pre, e₀⟩) e₀ ∧ (I c).replies = (I ⟨pre, e₀⟩).replies ++ [okS]) := by
   constructor
   · exact run_pluginError (fun s m rs res h => by
       rcases recipientStep_halt_replies ui dec s m rs res h with ⟨_, h⟩ | h
@@ -897,12 +902,21 @@ theorem plugin_error_only_from_error_nonvacuous :
     (R₀ ⟨[rs0, msg1, error1, doneS], .eof⟩).result = .error (.pluginError [98, 111, 111, 109]) ∧
     (I₀ ⟨[fk0, msg1, error1, doneS], .eof⟩).result = .error (.pluginError [98, 111, 111, 109]) := by decide
 
-example : ∃ m ∈ [rs0, msg1, error1, doneS], m.type = "error" ∧ m.body = [98, 111, 111, 109] :=
-  ((plugin_error_only_from_error uiAll dec0 0 false "age1verif1q" [7] [⟨"X25519", ["abc"], [1]⟩] "grease-1"
-    ⟨[rs0, msg1, error1, doneS], .eof⟩ [98, 111, 111, 109]).1 plugin_error_only_from_error_nonvacuous.1).2
-example : ∃ init, (I₀ ⟨[fk0, msg1, error1, doneS], .eof⟩).replies = init ++ [okS] :=
-  ((plugin_error_only_from_error uiAll dec0 0 false "age1verif1q" [7] [⟨"X25519", ["abc"], [1]⟩] "grease-1"
-    ⟨[fk0, msg1, error1, doneS], .eof⟩ [98, 111, 111, 109]).2 plugin_error_only_from_error_nonvacuous.2).1
+example : ∃ pre m post, [rs0, msg1, error1, doneS] = pre ++ m :: post ∧ m.type = "error" ∧
+    m.body = [98, 111, 111, 109] ∧ ∀ e₀, Listening (R₀ ⟨pre, e₀⟩) e₀ ∧
+      (R₀ ⟨[rs0, msg1, error1, doneS], .eof⟩).replies = (R₀ ⟨pre, e₀⟩).replies ++ [okS] :=
+  (plugin_error_only_from_error uiAll dec0 0 false "age1verif1q" [7] [⟨"X25519", ["abc"], [1]⟩] "grease-1"
+    ⟨[rs0, msg1, error1, doneS], .eof⟩ [98, 111, 111, 109]).1 plugin_error_only_from_error_nonvacuous.1
+example : ∃ pre m post, [fk0, msg1, error1, doneS] = pre ++ m :: post ∧ m.type = "error" ∧
+    m.body = [98, 111, 111, 109] ∧ ∀ e₀, Listening (I₀ ⟨pre, e₀⟩) e₀ ∧
+      (I₀ ⟨[fk0, msg1, error1, doneS], .eof⟩).replies = (I₀ ⟨pre, e₀⟩).replies ++ [okS] :=
+  (plugin_error_only_from_error uiAll dec0 0 false "age1verif1q" [7] [⟨"X25519", ["abc"], [1]⟩] "grease-1"
+    ⟨[fk0, msg1, error1, doneS], .eof⟩ [98, 111, 111, 109]).2 plugin_error_only_from_error_nonvacuous.2
+/-- the split the theorem speaks of, at these values: the client was listening after
+    `[rs0, msg1]`, and `error1` is what it reached -/
+example : Listening (R₀ ⟨[rs0, msg1], .eof⟩) .eof ∧
+    (R₀ ⟨[rs0, msg1, error1, doneS], .eof⟩).replies = (R₀ ⟨[rs0, msg1], .eof⟩).replies ++ [okS] :=
+  ⟨by nv, by nv⟩
 
 /-- non-vacuity of `unknown_answered_unsupported`: `frobnicate a` reaches a
     listening wrap / unwrap (the `example` below: `file-key` is unknown to the wrap,
